@@ -78,3 +78,29 @@ func (e *WEnv) PendCred() string {
 	}
 	return joinSorted(items)
 }
+
+// PendGame: every entry of the unmined game-history bucket, "W:s|b:T:vout".
+func (e *WEnv) PendGame() string {
+	es, err := e.dumpBucket("unminedgamehistory")
+	if err != nil {
+		return "err"
+	}
+	var items []string
+	for _, x := range es {
+		k := x.Key
+		if len(k) != 80 {
+			items = append(items, "?key"+fmt.Sprint(len(k)))
+			continue
+		}
+		w, ok := e.walletRev[string(k[0:42])]
+		if !ok {
+			w = "?" + string(k[0:8])
+		}
+		kind := "s"
+		if k[42]&1 != 0 {
+			kind = "b"
+		}
+		items = append(items, w+":"+kind+":"+e.outPointName(k[44:80]))
+	}
+	return joinSorted(items)
+}
